@@ -86,6 +86,14 @@ let () = main_loop (function
       (match text_load (cs = "1") enc v, text_widget (cs = "1") enc v (z_of_int (int_of_string low)) (z_of_int (int_of_string high)) with
        | Some (ok, _), Some r -> Printf.sprintf "frm %d %d %s" (if r then 1 else 0) (if ok then 1 else 0) (hex_of_bytes v)
        | _ -> "frm MODEL-FALLBACK")
+  | "fls" :: name :: repl :: hs ->
+      let nm = bytes_of_hex name and rp = n_of_int (int_of_string ("0x" ^ repl)) in
+      let o = ref (byte_tab.(1) :: bytes_of_hex "756e746f7563686564") in
+      "fls" ^ String.concat "" (List.map (fun h ->
+        match validate_or_filter nm rp (bytes_of_hex h) with
+        | FValid -> " v:" ^ hex_of_bytes !o
+        | FFiltered x -> o := x; " f:" ^ hex_of_bytes x
+        | _ -> " MODEL-FALLBACK") hs)
   | ["dv"; h] ->
       let l = bytes_of_hex h in
       let (c, r) = decode_valid l in
@@ -112,4 +120,60 @@ let () = main_loop (function
       let f stop = match utf16_to_utf8 stop l with
         | Some (Some o) -> hex_of_bytes o | Some None -> "throw" | None -> "MODEL-OUT-OF-FUEL" in
       "c168 " ^ f false ^ " " ^ f true
+  | "seq" :: loc :: ops ->
+      (* one form object with three text widgets living across several loads; see harness/C14_form.cpp *)
+      let l = ints_of_hex loc in
+      let rec after_dot = function [] -> None | 46 :: r -> Some r | _ :: r -> after_dot r in
+      let rec upto_at = function [] -> [] | 64 :: _ -> [] | x :: r -> x :: upto_at r in
+      let enc = match after_dot l with Some r -> upto_at r | None -> [117;115;45;97;115;99;105;105] in
+      let enc = List.map (fun b -> byte_tab.(b)) enc in
+      let st = Array.make 3 w_fresh in
+      let out = Buffer.create 64 in
+      Buffer.add_string out "seq";
+      let step i op = match wstep st.(i) op with Some s' -> st.(i) <- s' | None -> raise Exit in
+      let split_on c s = String.split_on_char c s in
+      (try
+        List.iter (fun op ->
+          let c = op.[0] in
+          let idx () = Char.code op.[1] - 48 in
+          let arg () = String.sub op 3 (String.length op - 3) in
+          match c with
+          | 'L' ->
+              let fs = split_on ',' (String.sub op 1 (String.length op - 1)) in
+              List.iteri (fun i f -> if i < 3 then
+                let req = if String.length f > 0 && f.[0] = '=' then Some (bytes_of_hex (let h = String.sub f 1 (String.length f - 1) in if h = "" then "-" else h)) else None in
+                step i (OLoad (true, enc, req))) fs
+          | 'C' -> for i = 0 to 2 do step i OClear done
+          | 'c' -> step (idx ()) OClear
+          | 'S' -> step (idx ()) (OSetValue (bytes_of_hex (let h = arg () in if h = "" then "-" else h)))
+          | 'M' -> (match split_on ':' (arg ()) with
+                    | [a; b] -> step (idx ()) (OLimits (z_of_int (int_of_string a), z_of_int (int_of_string b)))
+                    | _ -> failwith "M")
+          | 'H' -> step (idx ()) (OCharset (op.[3] = '1'))
+          | 'V' ->
+              Buffer.add_string out " V";
+              for i = 0 to 2 do
+                let (b, s') = wvalidate st.(i) in st.(i) <- s'; Buffer.add_char out (if b then '1' else '0')
+              done
+          | 'F' ->
+              let r = ref true in
+              for i = 0 to 2 do let (b, s') = wvalidate st.(i) in st.(i) <- s'; if not b then r := false done;
+              Buffer.add_string out (if !r then " F1" else " F0")
+          | 'G' ->
+              Buffer.add_string out " G";
+              for i = 0 to 2 do
+                if i > 0 then Buffer.add_char out ',';
+                (match wget st.(i) with Some v -> Buffer.add_string out (hex_of_bytes v) | None -> Buffer.add_char out '!')
+              done
+          | 'N' ->
+              (match split_on ':' (String.sub op 1 (String.length op - 1)) with
+               | [_fill; a; b] ->
+                   (* the constructor initialises code_points_: what the memory held before does not matter *)
+                   (match wstep w_fresh (OLimits (z_of_int (int_of_string a), z_of_int (int_of_string b))) with
+                    | Some s0 -> Buffer.add_string out (if fst (wvalidate s0) then " N1" else " N0")
+                    | None -> raise Exit)
+               | _ -> failwith "N")
+          | _ -> failwith "op") ops;
+        Buffer.contents out
+      with Exit -> "seq MODEL-FALLBACK")
   | _ -> "BAD-CASE")
